@@ -57,6 +57,7 @@ type call struct {
 	fromEnd  bool
 	feNil    bool // written as :from-end nil
 	hashQuote bool // #'f instead of 'f
+	truth    string // what the tests / predicates return for true: TrT TrNum TrElt TrStr TrList TrIdx
 	op       string // binop (reduce, two-sequence map)
 	hasInit  bool
 	init     int
@@ -230,12 +231,40 @@ func (c *call) keyLisp(form int) string {
 func dec(v string) string { return "(- (char-code " + v + ") 100)" }
 func enc(v string) string { return "(code-char (+ 100 " + v + "))" }
 
+var strTests = map[string]string{"TEql": "string=", "TEq": "string=", "TLt": "string<", "TGt": "string>", "TLe": "string<=", "TGe": "string>=", "TNe": "string/="}
+
+// generalized booleans: cond is a Lisp form that is t / nil; the result answers nil for false and, for
+// true, the object the style of this call prescribes (arg is a variable holding one of the arguments)
+func (c *call) truthBody(cond, arg string) string {
+	switch c.truth {
+	case "TrNum":
+		return "(and " + cond + " 7)"
+	case "TrElt":
+		return "(if " + cond + " " + arg + " nil)"
+	case "TrStr":
+		return "(if " + cond + " \"yes\" nil)"
+	case "TrList":
+		return "(if " + cond + " (list " + arg + ") nil)"
+	case "TrIdx":
+		return "(and " + cond + " 0)"
+	}
+	return cond
+}
+
 // the two-argument test as a function designator at the level of the elements of this form
 func (c *call) testLisp(form int) string {
+	name := intTests[c.test]
 	if c.charLevel(form) {
-		return c.desig(charTests[c.test])
+		name = charTests[c.test]
 	}
-	return c.desig(intTests[c.test])
+	if c.truth == "" || c.truth == "TrT" {
+		return c.desig(name)
+	}
+	if c.truth == "TrIdx" && c.charLevel(form) {
+		// string< and friends answer with the mismatch index (0 for one-character strings)
+		return "(lambda (a b) (" + strTests[c.test] + " (string a) (string b)))"
+	}
+	return "(lambda (a b) " + c.truthBody("("+name+" a b)", "b") + ")"
 }
 
 func (c *call) opLisp(form int) string {
@@ -318,16 +347,18 @@ func (c *call) render(form int) string {
 		return fmt.Sprint(e)
 	}
 	predLisp := func() string {
+		name, cst := intTests[c.predT], fmt.Sprint(c.predC)
 		if c.charLevel(form) {
-			if c.flag {
-				return fmt.Sprintf("(lambda (x) (if (%s %s x) x nil))", charTests[c.predT], charLit(c.predC))
-			}
-			return fmt.Sprintf("(lambda (x) (%s %s x))", charTests[c.predT], charLit(c.predC))
+			name, cst = charTests[c.predT], charLit(c.predC)
 		}
+		cond := fmt.Sprintf("(%s %s x)", name, cst)
 		if c.flag {
-			return fmt.Sprintf("(lambda (x) (if (%s %d x) x nil))", intTests[c.predT], c.predC)
+			return "(lambda (x) (if " + cond + " x nil))"
 		}
-		return fmt.Sprintf("(lambda (x) (%s %d x))", intTests[c.predT], c.predC)
+		if c.truth == "TrIdx" && c.charLevel(form) {
+			return fmt.Sprintf("(lambda (x) (%s (string %s) (string x)))", strTests[c.predT], cst)
+		}
+		return "(lambda (x) " + c.truthBody(cond, "x") + ")"
 	}
 	s1 := seqLit(c.s1, form, f.destr)
 	s2 := seqLit(c.s2, form, f.destr)
@@ -488,7 +519,7 @@ func (c *call) gallina() string {
 	if c.hasInit {
 		init = "(Some " + gZ(c.init) + ")"
 	}
-	return fmt.Sprintf("mkCall %s %s %s (PT %s %s) (SList %s) (SList %s) %s %s %s %s %s %s %s %s %s %s %s %d%%nat %s",
+	return fmt.Sprintf("mkCall %s %s %s (PT %s %s) (SList %s) (SList %s) %s %s %s %s %s %s %s %s %s %s %s %d%%nat %s "+c.truth,
 		c.fn.coq, gZ(c.item), gZ(c.newv), c.predT, gZ(c.predC), gZs(c.s1), gZs(c.s2),
 		gOptNat(c.start), gOptNat(c.end), common.GBool(c.end == -2), gOptNat(c.start2), gOptNat(c.end2), key, test, count,
 		common.GBool(c.fromEnd), c.op, init, c.nseq, common.GBool(c.flag))
@@ -966,6 +997,12 @@ func genCall(r *common.Rng, f *fspec, maxLen int) *call {
 	case "concat":
 		c.s2 = genSeq(r, 5)
 	}
+	// what "true" looks like: half of the calls use functions answering t, the others a number, an
+	// argument, a string, a fresh list, a mismatch index (added after seeded change C14-5: `== slip.True`)
+	c.truth = "TrT"
+	if f.lisp != "some" && r.Chance(50) {
+		c.truth = common.Pick(r, []string{"TrNum", "TrElt", "TrStr", "TrList", "TrIdx"})
+	}
 	return c
 }
 
@@ -1064,6 +1101,7 @@ func Run(ctx *common.Ctx) {
 		descs = append(descs, d)
 		ctx.Hist("fn:" + f.lisp)
 		ctx.Hist(fmt.Sprintf("len:%d", len(c.s1)))
+		ctx.Hist("true-as:" + c.truth)
 		nk := 0
 		for _, on := range []bool{c.start >= 0, c.end != -1, c.start2 >= 0, c.end2 >= 0, c.key != "", c.tkind != testDefault, c.ckind != countAbsent, c.fromEnd, c.hasInit} {
 			if on {
@@ -1079,7 +1117,7 @@ func Run(ctx *common.Ctx) {
 		}
 	}
 	ctx.Meta.DistinctNontrivial = len(distinct)
-	ctx.Meta.Rule = "random calls of 52 sequence functions (find position count remove delete substitute nsubstitute and -if / -if-not, remove-/delete-duplicates, member assoc rassoc and -if, search mismatch, subseq replace fill reverse nreverse, sort stable-sort merge, union intersection set-difference subsetp, every some notany notevery, map mapcar reduce concatenate): elements from the 4-symbol alphabet {-1,0,1,2} (6%: one two-byte character; for abs/square keys often both -1 and 1), length 0..8 biased to 0 and 1 (sort: 30% of length 13..32), item / predicate constant mostly drawn from the sequence, :start/:end (:start2/:end2) in range with every boundary value, :end nil, :key from {- abs 1+ square}, :test/:test-not from {eql = < > <= >= /=}, :count -1..len+1 or nil, :from-end t/nil, :initial-value; search patterns cut from the searched sequence, mismatch partners by point changes and cuts, merge arguments pre-sorted; every call is evaluated as Lisp text on the same elements as a list, as nil where a sequence is empty, as a vector and as a string (characters 100+e; tests become char tests, keys decode the character); non-destructive calls are repeated with the sequences in variables which must be unchanged afterwards; distinct = distinct calls with at least one keyword"
+	ctx.Meta.Rule = "random calls of 52 sequence functions (find position count remove delete substitute nsubstitute and -if / -if-not, remove-/delete-duplicates, member assoc rassoc and -if, search mismatch, subseq replace fill reverse nreverse, sort stable-sort merge, union intersection set-difference subsetp, every some notany notevery, map mapcar reduce concatenate): elements from the 4-symbol alphabet {-1,0,1,2} (6%: one two-byte character; for abs/square keys often both -1 and 1), length 0..8 biased to 0 and 1 (sort: 30% of length 13..32), item / predicate constant mostly drawn from the sequence, :start/:end (:start2/:end2) in range with every boundary value, :end nil, :key from {- abs 1+ square}, :test/:test-not from {eql = < > <= >= /=}, half of the calls with tests / predicates / sort predicates answering a generalized boolean other than t (7, an argument, a string, a list, 0, string< on one-character strings), :count -1..len+1 or nil, :from-end t/nil, :initial-value; search patterns cut from the searched sequence, mismatch partners by point changes and cuts, merge arguments pre-sorted; every call is evaluated as Lisp text on the same elements as a list, as nil where a sequence is empty, as a vector and as a string (characters 100+e; tests become char tests, keys decode the character); non-destructive calls are repeated with the sequences in variables which must be unchanged afterwards; distinct = distinct calls with at least one keyword"
 	header := "From C14 Require Import Base Model Spec Corr.\nOpen Scope Z_scope.\n"
 	footer := "Definition res := Eval vm_compute in check_all cases.\nPrint res.\nDefinition gcount := Eval vm_compute in guard_count cases.\nPrint gcount.\nDefinition specmiss := Eval vm_compute in spec_misses cases.\nPrint specmiss.\n"
 	ctx.WriteShards("cases", header, "case", footer, terms, descs, 16)
